@@ -569,3 +569,16 @@ Proof.
   - apply g_yansi_render_text_eq; [apply Hok|]. rewrite (proj1 Hp). apply ya_has_zero.
   - now apply ya_render_interp.
 Qed.
+
+(* the restriction to quirk-free styles is needed: with `Quirk::Bright` (builder `.bright()`, which the adapter never
+   calls) the same fields render a DIFFERENT colour than the value's plain meaning -- witness: red + Bright shows
+   bright red *)
+Definition ya_no_oracle : ya_oracle := mkYaOracle (fun _ _ => None) (fun _ _ => None).
+Lemma yansi_render_quirk_refuted :
+  exists st, ya_style_ok st /\ ya_cond st = None /\ ya_quirks st <> 0 /\
+    (bs <- g_yansi_render ya_no_oracle false st ;; ad_interp_x bs) = Some (mkStyle (Some (CAnsi 9)) None None 0) /\
+    ya_meaning st = mkStyle (Some (CAnsi 1)) None None 0.
+Proof.
+  exists (mkYaStyle (Some YaRed) None 0 (2 ^ ya_quirk_disc YaBright) None).
+  repeat split; try (cbn; lia); try discriminate; vm_compute; reflexivity.
+Qed.
